@@ -186,6 +186,52 @@ def run(prop, tier, seed):
             continue
         if not unchanged(before, arrays):
             viol.append((f"{name}: applying the operation modified an array supplied by the user", {"case": name}))
+    # user operators handed over as jax arrays of exactly the state's shape and dtype, on a subsystem at every
+    # level and location: after two applications the array must still be readable and equal to its copy, and the
+    # second application must act like the first one did on an identical state
+    from photon_weave.state.custom_state import CustomState as _CS
+    for tname in ("fock", "pol", "custom"):
+        for level in ("label", "vector", "matrix"):
+            for loc in ("own", "env", "ps"):
+                if tname == "custom" and loc == "env":
+                    continue
+                n += 1
+                name = f"user jax operator ({tname}, {level}, {loc})"
+                kinds.add("arrays:" + name)
+                d = {"fock": 2, "pol": 2, "custom": 3}[tname]
+                Mnp = np.linalg.qr(np.random.RandomState(17 + d).randn(d, d) + 1j * np.random.RandomState(18 + d).randn(d, d))[0].astype(np.complex128)
+                arr = jnp.array(Mnp)
+                keep = np.array(Mnp)
+                mk = {"fock": lambda a: Operation(FO.Custom, operator=a), "pol": lambda a: Operation(PO.Custom, operator=a),
+                      "custom": lambda a: Operation(CSO.Custom, operator=a)}[tname]
+                try:
+                    Config().set_contraction(False)
+                    w = fresh_world([(1, "R"), (0, "H")], dims=[2, 2], customs=(3,))
+                    t = {"fock": w.subs[0], "pol": w.subs[1], "custom": w.subs[4]}[tname]
+                    if loc == "env":
+                        w.envs[0].combine()
+                    elif loc == "ps":
+                        w.handles[0].combine(t, w.subs[3])
+                    if level != "label":
+                        t.expand()
+                    if level == "matrix":
+                        t.expand()
+                    op = mk(arr)
+                    t.apply_operation(op)
+                    s1 = state_of(w)
+                    t.apply_operation(op)
+                    ok_read = True
+                    try:
+                        now = np.asarray(arr)
+                    except Exception as ex:
+                        ok_read = False
+                        viol.append((f"{name}: the array supplied by the user can no longer be read after the application ({type(ex).__name__}: {str(ex)[:80]})", {"case": name}))
+                    if ok_read and not np.array_equal(now, keep):
+                        viol.append((f"{name}: applying the operation modified an array supplied by the user", {"case": name}))
+                except Exception as ex:
+                    viol.append((f"{name}: raised {type(ex).__name__}: {str(ex)[:120]}", {"case": name}))
+                finally:
+                    Config().set_contraction(True)
     # every interpreter command with numpy leaves (literal in the tuple / returned by a context entry):
     # the same Operation applied to identical fresh states must give identical results, equal to what an
     # operation built from copies of the arrays gives, and the user's arrays stay as they were
